@@ -144,6 +144,7 @@ func (w *W) history(i int, r *vlib.Rand) {
 	}
 	mism := 0
 	slots := make([]*hslot, k)
+	sent := w.newSentinels(r, p)
 
 	batch := func() int {
 		switch r.Intn(8) {
@@ -346,7 +347,8 @@ func (w *W) history(i int, r *vlib.Rand) {
 				src, what = fresh("New", hll.NewHyperLogLogInt(uint32(p)), newModel(p), nil), "a new empty counter"
 			case 2:
 				q := r.Intn(k)
-				src, what = fresh("Build", hll.BuildHyperLogLog(append([]byte(nil), slots[q].h.GetBytes()...)), slots[q].md.clone(), nil), fmt.Sprintf("BuildHyperLogLog(c%d.GetBytes())", q)
+				bh, _ := w.build(append([]byte(nil), slots[q].h.GetBytes()...), r.Intn(6), det)
+				src, what = fresh("Build", bh, slots[q].md.clone(), nil), fmt.Sprintf("BuildHyperLogLog(c%d.GetBytes())", q)
 			default:
 				q := r.Intn(k)
 				src, what = slots[q], fmt.Sprintf("c%d", q)
@@ -410,12 +412,7 @@ func (w *W) history(i int, r *vlib.Rand) {
 					befores[x] = append([]byte(nil), slots[q].h.GetBytes()...)
 				}
 			}
-			var t *hll.HyperLogLog
-			if nops == 0 && r.Bool() {
-				t = s.h.Merge()
-			} else {
-				t = s.h.Merge(rest...)
-			}
+			t := w.merge(r, sent, s.h, rest, det)
 			dst := r.Intn(k)
 			note("c%d = Merge of counters %v", dst, ops)
 			if t == nil {
@@ -435,7 +432,8 @@ func (w *W) history(i int, r *vlib.Rand) {
 			var t *hll.HyperLogLog
 			in := append([]byte(nil), s.h.GetBytes()...)
 			note("c%d = BuildHyperLogLog(c%d.GetBytes())", j, j)
-			if pv := vlib.Catch(func() { t = hll.BuildHyperLogLog(in) }); pv != nil || t == nil {
+			var pv interface{}
+			if t, pv = w.build(in, r.Intn(6), det); pv != nil || t == nil {
 				c.Fail("Build:roundtrip", fmt.Sprintf("BuildHyperLogLog(GetBytes()) failed: %v", pv), det())
 				break
 			}
@@ -455,6 +453,7 @@ func (w *W) history(i int, r *vlib.Rand) {
 		observe(j)
 		checkHeld()
 	}
+	w.sentinelsIntact(sent, det)
 	c.Count("histories", 1)
 	c.Eval(int64(len(log)))
 	c.SetAdd("precisions_history", fmt.Sprint(p))
